@@ -40,7 +40,8 @@ Definition rq_is_trace (q : rx_request) : bool := str_eqb (rl_method (rq_line q)
 
 (* ---- request_receiver ------------------------------------------------------------------ *)
 Record rcfg := mk_rcfg
-  { c_lim : limits; c_max_content : N; c_max_chunk : N; c_translate_head : bool; c_concat : bool }.
+  { c_lim : limits; c_max_content : N; c_max_chunk : N; c_translate_head : bool; c_concat : bool;
+    c_defer_continue : bool (* the application's expect-continue handler answers later *) }.
 
 Record receiver := mk_rv
   { rv_req : rx_request; rv_chunk : rx_chunk; rv_body : str; rv_code : N;
@@ -190,7 +191,7 @@ Definition dispatch_rx (cfg : rcfg) (v : receiver) (r : rx) : receiver * list ev
         if hd_is_chunked (rq_headers q) && negb (c_concat cfg) then (v, [e]) else (rv_clear v, [e])
       else (rv_clear v, [ETrace (rv_code v)])
   | RX_INVALID => (rv_clear v, [EInvalid (rv_code v)])
-  | RX_EXPECT_CONTINUE => (rv_set_continue_sent v, [EContinue (rv_code v)])
+  | RX_EXPECT_CONTINUE => (if c_defer_continue cfg then v else rv_set_continue_sent v, [EContinue (rv_code v)])
   | RX_CHUNK =>
       let e := chunk_event (rv_chunk v) in
       if rc_is_last (rv_chunk v) then (rv_clear v, [e]) else (v, [e])
